@@ -501,6 +501,7 @@ pub fn entry_case(rng: &mut Rng, v: u8, ccr: u8) -> Case {
     c.er[7] = (fa + 4) | ((top as u32) << 24);
     let target = gen::code_addr(rng, rng.clone().chance(1, 2));
     c.patch32(4 * v as u32, target | ((rng.u8() as u32) << 24));
+    gen::maybe_io(rng, &mut c);
     c
 }
 
@@ -508,6 +509,11 @@ pub fn excwalk_session(rep: &mut Report, check: &str, seed: u64, verbose: bool) 
     let mut rng = Rng::new(seed);
     let mut sess = Sess::new(Some((seed & 1) as u32));
     sess.full_every = 256;
+    if rng.chance(1, 3) {
+        for (a, v) in gen::io_noise(&mut rng) {
+            sess.poke(a, v);
+        }
+    }
     // vector table: every vector points to its own even code address
     let code_dram = rng.chance(1, 2);
     // code addresses kept away from the stack zones used below
